@@ -72,6 +72,12 @@ def units(tier):
     for q in range(8):
         for part in range(8):
             yield {"leg": "chain", "q": q, "part": part}
+    # several DIFFERENT variable-width tables with the same chromosome sizes and the same number of bins coarsened one after the
+    # other in one process, in every order (anything remembered from one call must not leak into the next)
+    for k in (2, 3):
+        for perm in range(6):
+            yield {"leg": "seqvar", "k": k, "perm": perm}
+    yield {"leg": "limit"}
     yield {"leg": "cli"}
 
 
@@ -349,6 +355,84 @@ def _chain(R, q, only, part=0):
         scratch.rm(d)
 
 
+SEQVAR = [((1, 3, 2), (2, 1, 1)), ((3, 1, 2), (1, 2, 1)), ((2, 2, 2), (1, 1, 2))]      # sizes (6, 4), 6 bins each, different edges
+
+
+def _seqvar(R, unit, only):
+    import cooler
+    import itertools as it
+    order = list(it.permutations(range(3)))[unit["perm"]]
+    k = unit["k"]
+    R.add("states")
+    R.add("traces")
+    for step, ti in enumerate(order):
+        t = SEQVAR[ti]
+        bins = alpha.table_bins(t, "chr")
+        n = len(bins)
+        cells = alpha.structured(n, True)[1][1]
+        pix = fx.pixvals(cells, n)
+        uri = fx.make(("c08seq", ti), bins, pix)
+        inner = {"step": step, "table": ti}
+        if only is not None and only != inner:
+            pass
+        R.order = (R.order[0], step)
+        R.ev(1, 1 if step else 0)
+        R.add("transitions")
+        R.cls("seqvar")
+        out = scratch.fresh()
+        try:
+            try:
+                cooler.coarsen_cooler(uri, out, k, chunksize=4, columns=["count", "score"])
+            except Exception as e:
+                R.mismatch("coarsen-raises:" + type(e).__name__, inner, f"{e!s:.300}")
+                continue
+            _judge(R, inner, out, bins, pix, k, ["count", "score"], None)
+        finally:
+            scratch.rm(out)
+
+
+def _limit(R, only):
+    """block sums at and beyond the limits of the stored value dtype: the call may raise, or the stored value must be exact"""
+    import cooler
+    bins = alpha.table_bins(((1,) * 4, (1,) * 2), "chr")
+    R.add("states")
+    R.add("traces")
+    kk = 0
+    for din, dout, vals in (("int32", None, (2 ** 30, 2 ** 30 - 1, 0, 0)), ("int32", None, (2 ** 30, 2 ** 30, 0, 0)), ("int32", "int64", (2 ** 30, 2 ** 30, 5, 7)),
+                            ("uint8", None, (200, 55, 0, 0)), ("uint8", None, (200, 56, 0, 0)), ("uint8", "int64", (200, 56, 100, 100)),
+                            ("int16", "int32", (30000, 30000, 30000, 30000)), ("uint16", "uint32", (65535, 1, 65535, 1))):
+        for cs in (1, 10 ** 6):
+            kk += 1
+            inner = {"in": din, "out": dout, "values": list(vals), "chunksize": cs}
+            if only is not None and only != inner:
+                continue
+            R.order = (R.order[0], kk)
+            R.ev(1, 1)
+            R.add("transitions")
+            R.cls("limit")
+            pix = {c: {"count": v} for c, v in zip([(0, 0), (0, 1), (1, 1), (4, 5)], vals) if v}
+            pix[(2, 3)] = {"count": 1}
+            src = fx.make(("c08lim", din, vals), bins, pix, cols=("count",), count_dtype=np.dtype(din))
+            total = sum(vals[:3])
+            info = np.iinfo(np.dtype(dout or din))
+            out = scratch.fresh()
+            try:
+                try:
+                    cooler.coarsen_cooler(src, out, 2, chunksize=cs, dtypes={"count": np.dtype(dout)} if dout else None)
+                except Exception:
+                    if total <= info.max:
+                        R.mismatch("fitting-aggregate-refused", inner, f"block sum {total} fits {dout or din}")
+                    continue
+                got, rd = fx.read(out)
+                g = got.get((0, 0), {}).get("count")
+                if g != total:
+                    R.mismatch("stored-value-silently-differs-from-aggregate", inner, f"stored={g} exact={total} dtype={rd['dtypes'].get('count')}")
+                if rd["attrs"].get("sum") != sum(v["count"] for v in pix.values()):
+                    R.mismatch("total-not-preserved", inner, f"sum={rd['attrs'].get('sum')}")
+            finally:
+                scratch.rm(out)
+
+
 def _cli(R, only):
     ti = len(tables()) - 4
     t = tables()[ti]
@@ -400,5 +484,9 @@ def run(unit, R, tier, only=None):
         _chain(R, unit["q"], only, unit.get("part", 0))
     elif leg == "cli":
         _cli(R, only)
+    elif leg == "seqvar":
+        _seqvar(R, unit, only)
+    elif leg == "limit":
+        _limit(R, only)
     else:
         raise ValueError(leg)
